@@ -879,6 +879,9 @@ func (fr *Frame) discoverEffects(body func(sub edgeMap), base *State, recFrame *
 	fr.tuples = savedTuples
 	// keep the declarations/definitions made during the pass (written-object terms refer to them); drop the rest
 	u.restoreKeepCmds(snap)
+	for _, wr := range rec.writes {
+		eff.heapKeys[wr.key] = true
+	}
 	rec.classify(u, eff.heapKeys)
 	return eff
 }
@@ -906,6 +909,7 @@ func (fr *Frame) applyHavoc(st, base *State, eff *loopEffects) {
 		st.heaps = map[string]Term{}
 		st.layer = nil
 		u.epochAlloc[st.epoch] = st.alloc
+		fr.preserveLocalsExcept(base, st, eff)
 		u.note("loop/callback in %s contains a call with unknown effects: all heaps havocked at the loop head", fr.key)
 	} else {
 		for _, k := range sortedKeys(eff.heapKeys) {
